@@ -117,7 +117,7 @@ func (b *builder) addDecoder(name string, pool []decBuf, dec func(buf []byte) []
 	seen := map[string]bool{}
 	var classes []string
 	for i, p := range pool {
-		bufs[i] = p.b
+		bufs[i] = spareOf(p.b, 8) // own copy per decoder, with a sentinel tail behind the input
 		if c := "decode:" + p.class; !seen[c] {
 			seen[c] = true
 			classes = append(classes, c)
@@ -163,4 +163,52 @@ func splice(frame []byte, off int, muts []decBuf) []decBuf {
 		decBuf{"trunc_half", append([]byte(nil), frame[:n/2]...)},
 		decBuf{"long_1", append(append([]byte(nil), frame...), 1)})
 	return r
+}
+
+// ---- boundary exponents ------------------------------------------------------------------------------
+//
+// The exponent / scalar objects of every Exp-, ExpGLV-, CyclotomicExp- and ScalarMultiplication-like entry
+// point: each one is a shared *big.Int of its own (an argument under the group-wide purity check). The
+// one-word negative ones matter most: a callee that builds |k| by aliasing k's limbs and hands the temporary
+// to a process-wide pool lets the next pool user — of ANY package — write into the caller's exponent.
+type bexp struct {
+	name string
+	k    *big.Int
+}
+
+func boundaryExps(mod *big.Int, d *detReader) []bexp {
+	two63 := new(big.Int).Lsh(big.NewInt(1), 63)
+	two64 := new(big.Int).Lsh(big.NewInt(1), 64)
+	full := new(big.Int).SetBytes(d.bytes((mod.BitLen() + 7) / 8))
+	full.Mod(full, mod)
+	n := func(x *big.Int) *big.Int { return new(big.Int).Neg(x) }
+	return []bexp{
+		{"0", big.NewInt(0)},
+		{"1", big.NewInt(1)},
+		{"-1", big.NewInt(-1)},
+		{"-small", big.NewInt(-int64(5 + d.intn(1000)))},
+		{"-word", big.NewInt(-int64(1<<40 + d.intn(1<<30)))},
+		{"small", big.NewInt(int64(3 + d.intn(1000)))},
+		{"2^63", two63},
+		{"-2^63", n(two63)},
+		{"2^64-1", new(big.Int).Sub(two64, big.NewInt(1))},
+		{"-(2^64-1)", n(new(big.Int).Sub(two64, big.NewInt(1)))},
+		{"2^64", two64},
+		{"full", full},
+		{"-full", n(new(big.Int).Sub(full, big.NewInt(7)))},
+		{"wide", new(big.Int).SetBytes(d.bytes(2*((mod.BitLen()+7)/8) + 3))},
+	}
+}
+
+func bexpArgs(prefix string, es []bexp) []arg {
+	var r []arg
+	for _, e := range es {
+		r = append(r, sh(prefix+":"+e.name, e.k))
+	}
+	return r
+}
+
+// expClasses: class labels of an entry running the boundary exponents of one family (field, tower, gt, point).
+func expClasses(family string) []string {
+	return []string{"exp:negative_one_word", "exp:negative_one_word/" + family, "exp:boundary_exponents"}
 }
